@@ -1162,6 +1162,7 @@ func funcAt(p *Prog, region map[*ssa.Function]bool, s bceSite) *ssa.Function {
 }
 
 var c07Canaries = []Canary{
+	{Name: "r7-blob-cutoff-dropped", ExpectKey: "C07.C08/R3#cutoff-use", Edits: []Edit{{File: "lfs/pointer.go", Find: "}\n\nfunc DecodePointerFromBlob(b *gitobj.Blob) (*Pointer, error) {\n\t// Check size before reading\n\tif b.Size >= blobSizeCutoff {\n\t\treturn nil, errors.NewNotAPointerError(errors.New(tr.Tr.Get(\"blob size exceeds Git LFS pointer size cutoff\")))\n\t}\n\treturn DecodePointer(b.Contents)\n}\n\nfunc DecodePointerFromFile(file string) (*Pointer, error) {\n", Repl: "}\n\nfunc DecodePointerFromBlob(b *gitobj.Blob) (*Pointer, error) {\n\t// The recorded size of a blob is not always reliable (it is zero for\n\t// blobs built in memory), so bound the read itself: nothing past the\n\t// cutoff can belong to a pointer.\n\treturn DecodePointer(io.LimitReader(b.Contents, blobSizeCutoff))\n}\n\nfunc DecodePointerFromFile(file string) (*Pointer, error) {\n"}}},
 	{Name: "r6-extension-key-split", ExpectKey: "C07.R2#", Edits: []Edit{{File: "lfs/pointer.go", Find: "\toidType     = \"sha256\"\n\toidRE       = regexp.MustCompile(`\\A[0-9a-f]{64}\\z`)\n\tmatcherRE   = regexp.MustCompile(\"git-media|hawser|git-lfs\")\n\textRE       = regexp.MustCompile(`\\Aext-\\d{1}-\\w+`)\n\tpointerKeys = []string{\"version\", \"oid\", \"size\"}\n)\n\n", Repl: "\toidType     = \"sha256\"\n\toidRE       = regexp.MustCompile(`\\A[0-9a-f]{64}\\z`)\n\tmatcherRE   = regexp.MustCompile(\"git-media|hawser|git-lfs\")\n\textRE       = regexp.MustCompile(`\\Aext-(\\d{1})-(\\w+)`)\n\tpointerKeys = []string{\"version\", \"oid\", \"size\"}\n)\n\n"}, {File: "lfs/pointer.go", Find: "}\n\nfunc parsePointerExtension(key string, value string) (*PointerExtension, error) {\n\tkeyParts := strings.SplitN(key, \"-\", 3)\n\tif len(keyParts) != 3 || keyParts[0] != \"ext\" {\n\t\treturn nil, errors.New(tr.Tr.Get(\"Invalid extension value: %s\", value))\n\t}\n\n", Repl: "}\n\nfunc parsePointerExtension(key string, value string) (*PointerExtension, error) {\n\t// The key has already been matched against extRE by decodeKVData, so\n\t// take the priority and the name from its capture groups rather than\n\t// splitting the key a second time.\n\tkeyParts := extRE.FindStringSubmatch(key)\n\tif len(keyParts) != 3 {\n\t\treturn nil, errors.New(tr.Tr.Get(\"Invalid extension value: %s\", value))\n\t}\n\n"}}},
 	{Name: "r5-decodekv-elsewhere", ExpectKey: "C07.R3#decodeKV-caller", Edits: []Edit{{File: "lfs/pointer.go", Find: "func DecodePointer(reader io.Reader) (*Pointer, error) {\n\tp, _, err := DecodeFrom(reader)\n\treturn p, err", Repl: "func DecodePointer(reader io.Reader) (*Pointer, error) {\n\tdata, rerr := io.ReadAll(reader)\n\tif rerr != nil {\n\t\treturn nil, rerr\n\t}\n\tp, err := decodeKV(bytes.TrimSpace(data))\n\treturn p, err"}}},
 	{Name: "r4-read-at-least-one", ExpectKey: "C07.R7", Edits: []Edit{{File: "lfs/pointer.go", Find: "io.ReadFull(reader, buf)", Repl: "io.ReadAtLeast(reader, buf, 1)"}}},
